@@ -6,6 +6,11 @@
     (cached by the hash of its text).  Compiles in parallel, runs in parallel, re-runs the tail of a
     translation unit whose program died (sanitizer report / crash) so every case gets an observation.
   * C10 grammar: functor expressions over recording targets, C++ text + driver line + documented result.
+    Values are (type, n) with type i/l/d/m (m = av::MStr, move-sensitive); a *reference result* is (code, n, cell)
+    with code r<t> (T&) / k<t> (const T&) and cell the pool object it refers to: produced by reference-returning
+    targets ("RL"), kept by every forwarding adaptor, re-typed by retype_return<T&> ("RRR"), produced by
+    bind_return(f, std::ref(x)) / std::cref(x) ("BR" with a reference value).  GenC10.mcase builds the cases with
+    MStr arguments (categories of the argument expression tracked per adaptor so that everything generated compiles).
   * C11 grammar: see the second half.
 """
 import hashlib
@@ -250,11 +255,42 @@ def group_tus(n, per):
 #  C10
 # ====================================================================================================
 TYS = "ild"
-CXX_TY = {"i": "int", "l": "long", "d": "double", "v": "void"}
+CXX_TY = {"i": "int", "l": "long", "d": "double", "v": "void",
+          # the move-sensitive class: parameter declared by value / const& / &&
+          "m": "av::MStr", "mc": "const av::MStr&", "mr": "av::MStr&&",
+          # reference results: T& / const T& to the target's pool object
+          "ri": "int&", "rl": "long&", "rd": "double&", "ki": "const int&", "kl": "const long&", "kd": "const double&"}
+REF_RET = ("ri", "rl", "rd", "ki", "kl", "kd")
+
+
+def is_ref(ret):
+    return ret in REF_RET
+
+
+def base_ty(ret):
+    """the value type a result type decays to"""
+    return ret[1] if ret in REF_RET else ret
+
+
+def decay(v):
+    """a reference result (code, n, cell) read as a value"""
+    if isinstance(v, tuple) and len(v) == 3:
+        return (v[0][1], v[1])
+    return v
+
+
+def bind_cref(t, v):
+    """binding to a parameter declared const T&: a reference result of type T is that very object, anything else
+    arrives as a (converted) temporary"""
+    if isinstance(v, tuple) and len(v) == 3 and v[0][1] == t:
+        return ("k" + t, v[1], v[2])
+    return conv(t, v)
 
 
 def lit(v):
     t, n = v
+    if t == "m":
+        return "av::MStr(%d)" % n
     if t == "d":
         s = "%s%d.%d" % ("-" if n < 0 else "", abs(n) // 10, abs(n) % 10)
     elif t == "l":
@@ -265,14 +301,19 @@ def lit(v):
 
 
 def vtok(v):
+    if len(v) == 3:          # reference result
+        return "%s:%s:%d:%d" % ("cref" if v[0][0] == "k" else "ref", v[0][1], v[2], v[1])
     return "%s:%d" % v
 
 
 def conv(t, v):
-    """documented conversion to type t (double -> integer truncates toward zero); doubles are tenths"""
+    """documented conversion to type t (double -> integer truncates toward zero); doubles are tenths;
+    a reference result converts like the object it refers to and becomes a value"""
     if v == "unit":
         return v
-    s, n = v
+    s, n = decay(v)
+    if t[0] == "m" or s == "m":
+        return ("m", n)      # MStr to MStr only
     if s == "d" and t == "d":
         return (t, n)
     if s == "d":
@@ -284,7 +325,7 @@ def conv(t, v):
 
 
 def trunc(v):
-    s, n = v
+    s, n = decay(v)
     if s == "d":
         q = abs(n) // 10
         return -q if n < 0 else q
@@ -302,6 +343,14 @@ class ExprC10:
             return ["L", str(i), "1" if thr else "0", ret, str(len(tys))] + list(tys)
         if k == "V":
             return ["V", str(e[1]), "1" if e[2] else "0", e[3]]
+        if k == "PL":
+            _, i, thr, ret, tys, _f = e
+            return ["PL", str(i), "1" if thr else "0", ret, str(len(tys))] + list(tys)
+        if k == "RL":
+            _, i, thr, code, tys, _f = e
+            return ["RL", str(i), "1" if thr else "0", "1" if code[0] == "k" else "0", code[1], str(len(tys))] + list(tys)
+        if k == "RRR":
+            return ["RRR", "1" if e[1][0] == "k" else "0", e[1][1]] + ExprC10.tokens(e[2])
         if k == "B":
             _, loc, bs, f = e
             return ["B", str(loc), str(len(bs))] + [vtok(b) for b in bs] + ExprC10.tokens(f)
@@ -330,12 +379,16 @@ class ExprC10:
     @staticmethod
     def cxx(e, under_retype=False):
         k = e[0]
-        if k == "L":
+        if k in ("L", "RL"):
             _, i, thr, ret, tys, fobj = e
             targs = ", ".join([str(i), "true" if thr else "false", CXX_TY[ret]] + [CXX_TY[t] for t in tys])
             if under_retype:
                 return "sigc::ptr_fun(&av::leaf<%s>)" % targs
             return ("av::Rec<%s>()" if fobj else "&av::leaf<%s>") % targs
+        if k == "PL":
+            _, i, thr, ret, tys, fobj = e
+            targs = ", ".join([str(i), "true" if thr else "false", CXX_TY[ret]] + [CXX_TY[t] for t in tys])
+            return ("av::PRec<%s>()" if fobj else "&av::pleaf<%s>") % targs
         if k == "V":
             return "av::VRec<%d, %s, %s>()" % (e[1], "true" if e[2] else "false", CXX_TY[e[3]])
         if k == "B":
@@ -349,11 +402,17 @@ class ExprC10:
             return ("sigc::hide(%s)" if e[1] == -1 else "sigc::hide<" + str(e[1]) + ">(%s)") % ExprC10.cxx(e[2])
         if k == "RT":
             return "sigc::retype(%s)" % ExprC10.cxx(e[2], True)
-        if k == "RR":
+        if k in ("RR", "RRR"):
             return "sigc::retype_return<%s>(%s)" % (CXX_TY[e[1]], ExprC10.cxx(e[2]))
         if k == "HR":
             return "sigc::hide_return(%s)" % ExprC10.cxx(e[1])
         if k == "BR":
+            if len(e[1]) == 3:
+                # bound with std::ref(x) / std::cref(x), x a pool object: the adaptor returns the reference to x
+                code, n, cellid = e[1]
+                return "sigc::bind_return(%s, %s(av::setcell<%s>(%d, %s)))" % (
+                    ExprC10.cxx(e[2]), "std::cref" if code[0] == "k" else "std::ref", CXX_TY[code[1]], cellid,
+                    lit((code[1], n)))
             return "sigc::bind_return(%s, %s)" % (ExprC10.cxx(e[2]), lit(e[1]))
         if k == "TO":
             return "sigc::track_object(%s, %s)" % (ExprC10.cxx(e[2]), ", ".join("av::trk(%d)" % j for j in range(e[1])))
@@ -371,13 +430,13 @@ class ExprC10:
     def natural(e):
         """result type of the expression as C++ deduces it"""
         k = e[0]
-        if k in ("L", "V"):
+        if k in ("L", "V", "RL", "PL"):
             return e[3]
         if k == "B":
             return ExprC10.natural(e[3])
         if k in ("H", "RT", "TO"):
             return ExprC10.natural(e[2])
-        if k == "RR":
+        if k in ("RR", "RRR"):
             return e[1]
         if k == "HR":
             return "v"
@@ -394,10 +453,10 @@ class ExprC10:
         """list of adaptor kinds from the outside in (first path only), for the distribution"""
         acc = [] if acc is None else acc
         k = e[0]
-        if k in ("L", "V"):
+        if k in ("L", "V", "RL", "PL"):
             return acc
         acc.append(k)
-        nxt = {"B": 3, "H": 2, "RT": 2, "RR": 2, "HR": 1, "BR": 2, "TO": 2, "SL": 3, "C1": 2, "C2": 2, "EC": 1}[k]
+        nxt = {"B": 3, "H": 2, "RT": 2, "RR": 2, "RRR": 2, "HR": 1, "BR": 2, "TO": 2, "SL": 3, "C1": 2, "C2": 2, "EC": 1}[k]
         return ExprC10.kinds(e[nxt], acc)
 
     @staticmethod
@@ -417,9 +476,34 @@ class ExprC10:
             s = i * 100 + sum((j + 1) * trunc(a) for j, a in enumerate(recv))
             r = "unit" if ret == "v" else (("d", s * 10 + 5) if ret == "d" else (ret, s))
             return [(i, recv)], r
+        if k == "PL":
+            # parameters declared const T&: the setter of compose() receives the getter's very object
+            _, i, thr, ret, tys, _f = e
+            recv = [bind_cref(t, a) for t, a in zip(tys, args)]
+            if thr:
+                return [(i, recv)], "threw"
+            s = i * 100 + sum((j + 1) * trunc(a) for j, a in enumerate(recv))
+            r = "unit" if ret == "v" else (("d", s * 10 + 5) if ret == "d" else (ret, s))
+            return [(i, recv)], r
+        if k == "RL":
+            # a target returning T& / const T&: the documented result of every forwarding adaptor above it is this
+            # very reference (code, value, pool object = target id)
+            _, i, thr, code, tys, _f = e
+            recv = [conv(t, a) for t, a in zip(tys, args)]
+            if thr:
+                return [(i, recv)], "threw"
+            s = i * 100 + sum((j + 1) * trunc(a) for j, a in enumerate(recv))
+            return [(i, recv)], (code, s * 10 + 5 if code[1] == "d" else s, i)
+        if k == "RRR":
+            log, r = ExprC10.spec(e[2], args)
+            if r == "threw":
+                return log, r
+            if len(r) == 3 and r[0][1] == e[1][1]:
+                return log, (e[1], r[1], r[2])         # T&(x): the same object
+            return log, conv(e[1][1], r)
         if k == "V":
             _, i, thr, ret = e
-            recv = list(args)
+            recv = [decay(a) for a in args]            # A... a: by value
             if thr:
                 return [(i, recv)], "threw"
             s = i * 100 + sum((j + 1) * trunc(a) for j, a in enumerate(recv))
@@ -487,6 +571,8 @@ class GenC10:
     def __init__(self, rng):
         self.rng = rng
         self.nid = 0
+        self.p_ref = 0.15        # probability that a target whose result type is free returns T& / const T&
+        self.getter_ref = False  # family switch: the getters of compose() return references, the setter takes const T&
 
     def fresh(self):
         self.nid += 1
@@ -502,9 +588,14 @@ class GenC10:
             return ("d", base * 10 + (frac if base >= 0 else -frac))
         return (t, base)
 
-    def leaf(self, n, want, allow_throw=True, ptr_only=False, tys=None):
+    def leaf(self, n, want, allow_throw=True, ptr_only=False, tys=None, force_ref=False):
         r = self.rng
-        ret = want if want in "ild" else r.choice(["i", "l", "d"] if want == "nonvoid" else ["v", "i", "l", "d"])
+        if want in REF_RET or (want in ("any", "nonvoid") and (force_ref or r.chance(self.p_ref))):
+            code = want if want in REF_RET else r.choice("rk") + r.choice(TYS)
+            thr = allow_throw and r.chance(0.04)
+            tys = tys if tys is not None else [r.choice(TYS) for _ in range(n)]
+            return ("RL", self.fresh(), thr, code, tuple(tys), (not ptr_only) and r.chance(0.35))
+        ret = want if want in ("i", "l", "d") else r.choice(["i", "l", "d"] if want == "nonvoid" else ["v", "i", "l", "d"])
         if want == "v":
             ret = "v"
         thr = allow_throw and r.chance(0.04)
@@ -513,7 +604,17 @@ class GenC10:
         tys = tys if tys is not None else [r.choice(TYS) for _ in range(n)]
         return ("L", self.fresh(), thr, ret, tuple(tys), (not ptr_only) and r.chance(0.35))
 
-    def node(self, kind, n, want, inner, pos=None, nbound=None, no_throw=False):
+    def setter(self, nats, want, no_throw, force_ref):
+        """the setter of compose(): when a getter returns a reference, often a target with `const T&` parameters that
+        records which object it receives (it must be the getter's object)"""
+        r = self.rng
+        if not force_ref and any(is_ref(x) for x in nats) and r.chance(0.9 if self.getter_ref else 0.5):
+            ret = want if want in ("i", "l", "d", "v") else r.choice(["i", "l", "d"] if want == "nonvoid" else ["v", "i", "l", "d"])
+            tys = tuple(base_ty(x) if (x != "v" and r.chance(0.8)) else r.choice(TYS) for x in nats)
+            return ("PL", self.fresh(), (not no_throw) and r.chance(0.04), ret, tys, r.chance(0.4))
+        return self.leaf(len(nats), want, allow_throw=not no_throw, force_ref=force_ref)
+
+    def node(self, kind, n, want, inner, pos=None, nbound=None, no_throw=False, force_ref=False):
         """wrap: build adaptor `kind` for `n` incoming arguments; `inner(n', want', **kw)` builds the wrapped functor.
         Returns None when the kind is not applicable for this arity."""
         r = self.rng
@@ -538,15 +639,20 @@ class GenC10:
         if kind == "RT":
             tys = tuple(r.choice(TYS) for _ in range(n))
             f = inner(n, want, retype_tys=tys)
-            if f[0] == "L":
+            if f[0] in ("L", "RL"):
                 return ("RT", tys, f)
-            nat = ExprC10.natural(f)
+            nat = base_ty(ExprC10.natural(f))      # slot<T&(...)>::operator() does not compile: a slot returns a value
             return ("RT", tys, ("SL", nat, tys, f))
         if kind == "RR":
-            t = want if want in "ild" else r.choice(TYS)
+            t = want if want in ("i", "l", "d") else r.choice(TYS)
             if want == "v":
                 return None
-            return ("RR", t, inner(n, "nonvoid"))
+            f = inner(n, "nonvoid")
+            nat = ExprC10.natural(f)
+            if is_ref(nat) and want in ("any", "nonvoid") and (force_ref or r.chance(0.5)):
+                # retype_return<T&> / retype_return<const T&> of a reference result: still the same object
+                return ("RRR", ("k" if nat[0] == "k" else r.choice("rk")) + nat[1], f)
+            return ("RR", t, f)
         if kind == "HR":
             if want not in ("any", "v"):
                 return None
@@ -554,17 +660,22 @@ class GenC10:
         if kind == "BR":
             if want == "v":
                 return None
-            t = want if want in "ild" else r.choice(TYS)
+            t = want if want in ("i", "l", "d") else r.choice(TYS)
+            if want in ("any", "nonvoid") and (force_ref or r.chance(0.25)):
+                # bind_return(f, std::ref(x)) / std::cref(x): returns the reference to x (nullary overload when n == 0)
+                code = r.choice("rk") + r.choice(TYS)
+                return ("BR", (code, self.value(code[1], 8)[1], 100 + self.fresh()), inner(n, "any", force_ref=False))
             return ("BR", self.value(t, 8), inner(n, "any"))
         if kind == "TO":
             return ("TO", 1 + r.below(2), inner(n, want))
         if kind == "C1":
-            s = self.leaf(1, want, allow_throw=not no_throw)
-            return ("C1", s, inner(n, "nonvoid"))
+            g = inner(n, "nonvoid", force_ref=force_ref or self.getter_ref)
+            s = self.setter([ExprC10.natural(g)], want, no_throw, force_ref)
+            return ("C1", s, g)
         if kind == "C2":
-            s = self.leaf(2, want, allow_throw=not no_throw)
-            g1 = inner(n, "nonvoid", no_throw=True)
-            g2 = self.leaf(n, "nonvoid", allow_throw=False)
+            g1 = inner(n, "nonvoid", no_throw=True, force_ref=force_ref or self.getter_ref)
+            g2 = self.leaf(n, "nonvoid", allow_throw=False, force_ref=self.getter_ref or r.chance(0.2))
+            s = self.setter([ExprC10.natural(g1), ExprC10.natural(g2)], want, no_throw, force_ref)
             return ("C2", s, g1, g2)
         if kind == "EC":
             f = inner(n, want, force_throw=r.chance(0.6))
@@ -572,10 +683,12 @@ class GenC10:
             return ("EC", f, c)
         raise ValueError(kind)
 
-    def expr(self, n, want, chain, no_throw=False, retype_tys=None, force_throw=False):
-        """chain: list of adaptor kinds from the outside in; falls back to skipping inapplicable kinds"""
+    def expr(self, n, want, chain, no_throw=False, retype_tys=None, force_throw=False, force_ref=False):
+        """chain: list of adaptor kinds from the outside in; falls back to skipping inapplicable kinds.
+        force_ref: the target that determines the result returns a reference"""
         if not chain:
-            lf = self.leaf(n, want, allow_throw=not no_throw, ptr_only=retype_tys is not None, tys=retype_tys)
+            lf = self.leaf(n, want, allow_throw=not no_throw, ptr_only=retype_tys is not None, tys=retype_tys,
+                           force_ref=force_ref)
             if force_throw and not no_throw:
                 lf = lf[:2] + (True,) + lf[3:]
             return lf
@@ -584,30 +697,155 @@ class GenC10:
             # directly under retype: only a leaf or a slot is admissible; the caller wraps non-leaves in a slot
             pass
 
-        def inner(n2, want2, retype_tys=None, no_throw=no_throw, force_throw=force_throw):
-            return self.expr(n2, want2, rest, no_throw=no_throw, retype_tys=retype_tys, force_throw=force_throw)
+        def inner(n2, want2, retype_tys=None, no_throw=no_throw, force_throw=force_throw, force_ref=force_ref):
+            return self.expr(n2, want2, rest, no_throw=no_throw, retype_tys=retype_tys, force_throw=force_throw,
+                             force_ref=force_ref)
 
         k = kind[0] if isinstance(kind, tuple) else kind
         pos = kind[1] if isinstance(kind, tuple) and len(kind) > 1 else None
         nb = kind[2] if isinstance(kind, tuple) and len(kind) > 2 else None
-        e = self.node(k, n, want, inner, pos=pos, nbound=nb, no_throw=no_throw)
+        e = self.node(k, n, want, inner, pos=pos, nbound=nb, no_throw=no_throw, force_ref=force_ref)
         if e is None:
-            return self.expr(n, want, rest, no_throw=no_throw, retype_tys=retype_tys, force_throw=force_throw)
+            return self.expr(n, want, rest, no_throw=no_throw, retype_tys=retype_tys, force_throw=force_throw,
+                             force_ref=force_ref)
         if retype_tys is not None and e[0] != "L":
             pass
         return e
 
-    def case(self, n, chain, route, conv_ret=False):
+    def case(self, n, chain, route, conv_ret=False, force_ref=False):
         r = self.rng
         self.nid = 0
-        e = self.expr(n, "any", chain)
+        e = self.expr(n, "any", chain, force_ref=force_ref)
         sig = tuple(r.choice(TYS) for _ in range(n))
         args = tuple(self.value(t, p) for p, t in enumerate(sig))
         nat = ExprC10.natural(e)
-        ret = nat
+        # slot<T&(...)>::operator() / signal<T&(...)>::emit do not compile (`return T_return();`): a slot / signal over a
+        # reference-returning functor is declared with the value type
+        ret = base_ty(nat)
         if conv_ret and nat != "v" and route != "D":
             ret = r.choice(["i", "l", "d"])     # slot<void(...)> cannot wrap a value-returning functor
         return {"expr": e, "sig": sig, "args": args, "route": route, "ret": ret}
+
+    # ---------------------------------------------------------------- move-sensitive arguments (MStr)
+    # categories of an MStr argument as a call operator sees it: "rv" rvalue (T_arg deduced as MStr), "rvE" rvalue under
+    # an explicit T_arg = MStr&& (directly inside slot<R(MStr&&)>), "lv", "clv"; numeric positions are "n"
+    M_LEGAL = {"rv": ["m", "mc", "mr"], "rvE": ["m", "mc", "mr"], "lv": ["m", "mc"], "clv": ["m", "mc"]}
+
+    def mleaf(self, tys, cats, want, allow_throw=True):
+        r = self.rng
+        ret = want if want in ("i", "l", "d") else r.choice(["i", "l", "d"] if want == "nonvoid" else ["v", "i", "l", "d"])
+        if want == "v":
+            ret = "v"
+        thr = allow_throw and r.chance(0.04)
+        if r.chance(0.3):
+            return ("V", self.fresh(), thr, ret)        # template<class... A> operator()(A... a): by value
+        ps = [r.choice(TYS) if t != "m" else r.choice(self.M_LEGAL[c]) for t, c in zip(tys, cats)]
+        return ("L", self.fresh(), thr, ret, tuple(ps), r.chance(0.5))
+
+    def mexpr(self, tys, cats, want, chain, no_throw=False):
+        r = self.rng
+        if not chain:
+            return self.mleaf(tys, cats, want, not no_throw)
+        kind, rest = chain[0], chain[1:]
+        n = len(tys)
+
+        def skip():
+            return self.mexpr(tys, cats, want, rest, no_throw)
+
+        if kind in ("Bi", "B", "Hi", "H"):
+            if "rvE" in cats:
+                return skip()          # std::tuple<MStr&&> read from a const tuple: compile-time rejection
+            after = ["clv" if c == "rv" else c for c in cats]      # moved into std::tuple<MStr>, read as const&
+            if kind in ("Bi", "B"):
+                k = 1 + r.below(2)
+                if n + k > 6:
+                    return skip()
+                loc = -1 if kind == "B" else r.below(n + 1)
+                p = n if loc == -1 else loc
+                bs = tuple(self.value(r.choice(TYS), 6 + j) for j in range(k))
+                return ("B", loc, bs, self.mexpr(tys[:p] + [b[0] for b in bs] + tys[p:],
+                                                 after[:p] + ["n"] * k + after[p:], want, rest, no_throw))
+            if n < 1:
+                return skip()
+            loc = -1 if kind == "H" else r.below(n)
+            idx = n - 1 if loc == -1 else loc
+            return ("H", loc, self.mexpr([t for j, t in enumerate(tys) if j != idx],
+                                         [c for j, c in enumerate(after) if j != idx], want, rest, no_throw))
+        fw = ["rv" if c == "rvE" else c for c in cats]      # std::forward into a deduced T_arg&&
+        if kind == "SL":
+            sig, ic = [], []
+            for t, c in zip(tys, cats):
+                if t != "m":
+                    sig.append(r.choice(TYS))
+                    ic.append("n")
+                elif c in ("rv", "rvE") and r.chance(0.5):
+                    sig.append("mr")
+                    ic.append("rvE")
+                else:
+                    sig.append("m")
+                    ic.append("clv")
+            f = self.mexpr([("m" if x[0] == "m" else x) for x in sig], ic, want, rest, no_throw)
+            return ("SL", base_ty(ExprC10.natural(f)), tuple(sig), f)
+        if kind == "C2":
+            named = [c if c in ("n", "clv") else "lv" for c in cats]    # a...: both getters get lvalues
+            s = self.leaf(2, want, allow_throw=not no_throw)
+            g1 = self.mexpr(tys, named, "nonvoid", rest, True)
+            g2 = self.mleaf(tys, named, "nonvoid", False)
+            return ("C2", s, g1, g2)
+        if kind == "C1":
+            s = self.leaf(1, want, allow_throw=not no_throw)
+            return ("C1", s, self.mexpr(tys, fw, "nonvoid", rest, no_throw))
+        if kind == "RR":
+            if want == "v":
+                return skip()
+            t = want if want in ("i", "l", "d") else r.choice(TYS)
+            return ("RR", t, self.mexpr(tys, fw, "nonvoid", rest, no_throw))
+        if kind == "HR":
+            if want not in ("any", "v"):
+                return skip()
+            return ("HR", self.mexpr(tys, fw, "any", rest, no_throw))
+        if kind == "BR":
+            if want == "v":
+                return skip()
+            t = want if want in ("i", "l", "d") else r.choice(TYS)
+            return ("BR", self.value(t, 8), self.mexpr(tys, fw, "any", rest, no_throw))
+        if kind == "TO":
+            return ("TO", 1 + r.below(2), self.mexpr(tys, fw, want, rest, no_throw))
+        if kind == "EC":
+            f = self.mexpr(tys, fw, want, rest, no_throw)
+            return ("EC", f, self.leaf(0, ExprC10.natural(f), allow_throw=False))
+        return skip()
+
+    def mcase(self, n, chain, route, mpos=None, passes=None):
+        """a case with at least one MStr argument.  `pass` per argument: "t" temporary, "x" std::move(named), "l" named
+        lvalue, "c" const lvalue, "-" arithmetic.  Route S may declare the position `MStr&&` (sig "mr")."""
+        r = self.rng
+        self.nid = 0
+        n = max(1, n)
+        tys = [r.choice("ildm") for _ in range(n)]
+        tys[mpos if mpos is not None and mpos < n else r.below(n)] = "m"
+        args = tuple(self.value(t, p) for p, t in enumerate(tys))
+        sig, cats, ps = [], [], []
+        for i, t in enumerate(tys):
+            if t != "m":
+                sig.append(t)
+                cats.append("n")
+                ps.append("-")
+                continue
+            p = passes[i] if passes else r.choice("ttxxxlc")
+            if route == "D":
+                sig.append("m")
+                cats.append({"t": "rv", "x": "rv", "l": "lv", "c": "clv"}[p])
+            elif route == "S" and p in "tx" and r.chance(0.7):
+                sig.append("mr")          # slot<R(MStr&&)>
+                cats.append("rvE")
+            else:
+                sig.append("m")           # slot<R(MStr)> / signal<R(MStr)>: passes const MStr&
+                cats.append("clv")
+            ps.append(p)
+        e = self.mexpr(list(tys), cats, "any", chain)
+        return {"expr": e, "sig": tuple(sig), "args": args, "route": route, "ret": base_ty(ExprC10.natural(e)),
+                "pass": tuple(ps)}
 
 
 def c10_line(c):
@@ -625,20 +863,80 @@ def c10_expected(c):
     return show_obs(log, r)
 
 
+def c10_args_cxx(c):
+    """(declarations, argument expressions): MStr arguments are passed as temporaries, std::move(named), named lvalues
+    or const lvalues according to c["pass"]"""
+    ps = c.get("pass") or tuple("t" if a[0] == "m" else "-" for a in c["args"])
+    decl, out = [], []
+    for i, (a, p) in enumerate(zip(c["args"], ps)):
+        if a[0] != "m" or p in "t-":
+            out.append(lit(a))
+            continue
+        decl.append("  av::MStr m%d(%d);" % (i, a[1]))
+        out.append({"x": "std::move(m%d)", "l": "m%d", "c": "std::as_const(m%d)"}[p] % i)
+    return decl, out
+
+
+def c10_call_text(c):
+    return ", ".join(c10_args_cxx(c)[1])
+
+
 def c10_body(c, local_id):
     e = ExprC10.cxx(c["expr"])
-    args = ", ".join(lit(a) for a in c["args"])
+    decl, argl = c10_args_cxx(c)
+    args = ", ".join(argl)
     sigt = "%s(%s)" % (CXX_TY[c["ret"]], ", ".join(CXX_TY[t] for t in c["sig"]))
-    b = ["  av::begin();", "  auto e = %s;" % e, "  av::poison();"]
+    b = ["  av::begin();", "  auto e = %s;" % e, "  av::poison();"] + decl
+    # `-> decltype(auto)`: the observation must see the adaptor's own result type (a reference stays a reference)
     if c["route"] == "D":
-        b.append("  av::finish(%d, [&] { return e(%s); });" % (local_id, args))
+        b.append("  av::finish(%d, [&]() -> decltype(auto) { return e(%s); });" % (local_id, args))
     elif c["route"] == "S":
         b.append("  sigc::slot<%s> s(e);" % sigt)
-        b.append("  av::finish(%d, [&] { return s(%s); });" % (local_id, args))
+        b.append("  av::finish(%d, [&]() -> decltype(auto) { return s(%s); });" % (local_id, args))
     else:
         b.append("  sigc::signal<%s> sig;\n  sig.connect(e);" % sigt)
-        b.append("  av::finish(%d, [&] { return sig.emit(%s); });" % (local_id, args))
+        b.append("  av::finish(%d, [&]() -> decltype(auto) { return sig.emit(%s); });" % (local_id, args))
     return "\n".join(b)
+
+
+def c10_enters_nullary_bind_return(e, n):
+    """does a call of e with n arguments reach a bind_return adaptor with zero arguments (its nullary overload)"""
+    k = e[0]
+    if k in ("L", "V", "RL", "PL"):
+        return False
+    if k == "BR":
+        return n == 0 or c10_enters_nullary_bind_return(e[2], n)
+    if k == "B":
+        return c10_enters_nullary_bind_return(e[3], n + len(e[2]))
+    if k == "H":
+        return c10_enters_nullary_bind_return(e[2], n - 1)
+    if k == "SL":
+        return False        # call_it names the template overload
+    if k in ("RT", "RR", "RRR", "TO"):
+        return c10_enters_nullary_bind_return(e[2], n)
+    if k == "HR":
+        return c10_enters_nullary_bind_return(e[1], n)
+    if k == "C1":
+        return c10_enters_nullary_bind_return(e[2], n) or c10_enters_nullary_bind_return(e[1], 1)
+    if k == "C2":
+        return (c10_enters_nullary_bind_return(e[2], n) or c10_enters_nullary_bind_return(e[3], n)
+                or c10_enters_nullary_bind_return(e[1], 2))
+    if k == "EC":
+        return c10_enters_nullary_bind_return(e[1], n) or c10_enters_nullary_bind_return(e[2], 0)
+    return False
+
+
+def c10_norm_impl(s):
+    if s is None or s.startswith("crash:") or s.startswith("nocompile:"):
+        return s
+    log, res = s.split(" res=")
+    return "log=%s res=%s" % (canon_log(log[len("log="):]), res)
+
+
+def c10_norm_model(s):
+    """ "wt=1 log=... res=... spec=same" -> (wt, observation, spec) """
+    d = dict(p.split("=", 1) for p in s.split(" ") if "=" in p)
+    return d.get("wt"), "log=%s res=%s" % (canon_log(d.get("log", "")), d.get("res")), d.get("spec")
 
 
 def c10_arity_ok(e, n):
@@ -646,7 +944,7 @@ def c10_arity_ok(e, n):
     k = e[0]
     if k == "V":
         return True
-    if k == "L":
+    if k in ("L", "RL", "PL"):
         return len(e[4]) == n
     if k == "B":
         return (e[1] == -1 or e[1] <= n) and c10_arity_ok(e[3], n + len(e[2]))
@@ -654,9 +952,9 @@ def c10_arity_ok(e, n):
         return n >= 1 and (e[1] == -1 or e[1] < n) and c10_arity_ok(e[2], n - 1)
     if k == "RT":
         f = e[2]
-        sig = f[4] if f[0] == "L" else (f[2] if f[0] == "SL" else None)
+        sig = f[4] if f[0] in ("L", "RL") else (f[2] if f[0] == "SL" else None)
         return sig is not None and tuple(sig) == tuple(e[1]) and len(e[1]) == n and c10_arity_ok(f, n)
-    if k in ("RR", "BR", "TO"):
+    if k in ("RR", "RRR", "BR", "TO"):
         return c10_arity_ok(e[2], n)
     if k == "HR":
         return c10_arity_ok(e[1], n)
